@@ -6,7 +6,7 @@ BOUNDS = {
     "thorough": "strings/keys up to 2 bytes on all shapes, all option combinations, nondeterministic map order everywhere.",
 }
 ASSUMPTIONS = [
-    "Outside the claim: struct, typed map, slice, array, pointer and interface arshalers, user Marshaler methods/functions (reflection-driven traversal); the property is decided for the enforcement layer (Encoder state machine, C06) and the reflection-free any path only",
+    "typed values: embedded fallbacks (raw value and map) run through the reflect environment model here; adversarial user marshal methods/functions are decided by the C17 harnesses (labels C02/user/*); other type universes are outside",
     "float leaves are concrete (strconv digit generation is outside the technique)",
 ]
 
@@ -24,4 +24,8 @@ def obligations(tier):
                     sl = 2 if (shape == 0 and not q) else 1
                     nd = (shape in (2, 5)) and det
                     L.append(ob("anyM/shape=%d/str=%d/utf8=%d/dup=%d/det=%d/nd=%d" % (shape, sl, u, d, det, nd), ".", "VerifC02AnyM", [shape, sl, u, d, det, nd], covers=["success"], max_seconds=400))
+    for t in ['{"?":1,"?":2}', '{"?":1}'] if q else ['{"?":1,"?":2}', '{"?":1}', '{"??":1,"?":2}', '{"\\u00??":1,"?":2}']:
+        for via in B:
+            for u in B:
+                L.append(ob("embedded/%s/map=%d/utf8=%d" % (t.replace('"', ''), via, u), ".", "VerifC02Embedded", [t, via, u], covers=["success"], max_seconds=600))
     return L
